@@ -421,7 +421,17 @@ Match(d, o) == d = ANY \/ d = o \/ (d = NZ /\ o # 0 /\ o # KS) \/ (d = KS /\ o >
 
 -----------------------------------------------------------------------------
 (* Operational model: state record                                         *)
-Idle == [n |-> "cmd", m |-> "", k |-> 0, c |-> 0, r |-> 0, kids |-> <<>>, pp |-> 0]
+\* dn: the members of the pipeline already waited for; ri: the position of the
+\* member whose status is in r
+Idle == [n |-> "cmd", m |-> "", k |-> 0, c |-> 0, r |-> 0, kids |-> <<>>, pp |-> 0, dn |-> {}, ri |-> 0]
+
+\* the members of the pipeline p has started and not yet waited for.  The shell
+\* waits for ALL members; in which order is not fixed by XCU 2.9.2 (each wait names
+\* one process, so any order collects the same statuses): the next member to wait
+\* for is a free choice (phase "pick")
+KidSet(h) == {h.kids[i] : i \in 1 .. Len(h.kids)}
+PipeLeft(h) == KidSet(h) \ h.dn
+KidPos(h, c) == CHOOSE i \in 1 .. Len(h.kids) : h.kids[i] = c
 
 InitS(sc) ==
   [ sid   |-> sc.id, pf |-> sc.pf, det |-> Deterministic(sc),
@@ -514,9 +524,16 @@ Cont(T0, p, c, s) ==
       cm == Cmd(T, p)
       h == T.ph[p]
   IN IF cm.k = "pipe"
-     THEN LET r2 == IF s # 0 \/ ~T.pf THEN s ELSE h.r
-          IN IF h.k < Len(h.kids)
-             THEN [T EXCEPT !.ph[p] = [h EXCEPT !.n = "en", !.k = h.k + 1, !.c = h.kids[h.k + 1], !.r = r2]]
+     THEN \* the pipeline's status: the last member's, or under pipefail that of the
+          \* rightmost member that failed (zero if none did) - by POSITION, whatever
+          \* the order in which the members were waited for
+          LET i == KidPos(h, c)
+              take == IF T.pf THEN s # 0 /\ i > h.ri ELSE i = Len(h.kids)
+              r2 == IF take THEN s ELSE h.r
+              ri2 == IF take THEN i ELSE h.ri
+              dn2 == h.dn \cup {c}
+          IN IF KidSet(h) \ dn2 # {}
+             THEN [T EXCEPT !.ph[p] = [h EXCEPT !.n = "pick", !.c = 0, !.r = r2, !.ri = ri2, !.dn = dn2]]
              ELSE Adv([T EXCEPT !.q[p] = r2], p)
      ELSE Adv([T EXCEPT !.q[p] = s], p)
 
@@ -564,6 +581,7 @@ Kind(T, p) ==
                  [] c.k \in {"sub", "cs", "bg"} -> "fork"
                  [] OTHER -> "silent")
     [] h.n = "pf" -> "fork"
+    [] h.n = "pick" -> "pick"
     [] h.n = "rdeof" -> IF Eof(T, h.pp) THEN "silent" ELSE "blocked"
     [] h.n \in {"poll", "pollx"} ->
          IF h.m = "fg" THEN (IF T.st[h.c] = "Zombie" THEN "reap" ELSE IF T.nch[h.c] THEN "ack" ELSE "silent")
@@ -651,8 +669,11 @@ Apply(T, p, ch) ==
                              \cup (IF k < n THEN {pi} ELSE {}),
                    !.xw[p] = IF Variant = "leak_writer" /\ k < n THEN @ \cup {pi} ELSE @,
                    !.ph[p] = IF k < n THEN [h EXCEPT !.k = k + 1, !.pp = pi, !.kids = kids2]
-                             ELSE [Idle EXCEPT !.n = "en", !.m = "fg", !.k = first, !.c = kids2[first],
-                                               !.kids = kids2]]
+                             ELSE IF Variant = "wait_last_only"
+                             THEN [Idle EXCEPT !.n = "en", !.m = "fg", !.k = first, !.c = kids2[first], !.kids = kids2,
+                                               !.dn = {kids2[i] : i \in 1 .. n - 1}]
+                             ELSE [Idle EXCEPT !.n = "pick", !.m = "fg", !.kids = kids2]]
+  [] h.n = "pick" -> [T EXCEPT !.ph[p] = [h EXCEPT !.n = "en", !.c = ch]]
   [] h.n = "rdeof" -> [T EXCEPT !.xr[p] = @ \ {h.pp}, !.ph[p] = [h EXCEPT !.n = "en"]]
   [] h.n = "en" ->
       IF Variant = "enable_late" THEN [T EXCEPT !.ph[p] = [h EXCEPT !.n = "poll"]]
@@ -724,6 +745,7 @@ Step(p) ==
   /\ S.st[p] = "Run"
   /\ Kind(S, p) # "blocked"
   /\ IF Kind(S, p) = "reapany" THEN \E c \in ChangedKids(S, p) : S' = Apply(S, p, c)
+     ELSE IF Kind(S, p) = "pick" THEN \E c \in PipeLeft(S.ph[p]) : S' = Apply(S, p, c)
      ELSE S' = Apply(S, p, 0)
 
 Is(p, tags) == S.st[p] = "Run" /\ Tag(S, p) \in tags
@@ -749,6 +771,7 @@ AReapFg(p)    == Is(p, {"poll", "pollx"}) /\ S.ph[p].m = "fg" /\ Kind(S, p) = "r
 APollAny(p)   == Is(p, {"poll", "pollx"}) /\ S.ph[p].m = "wb" /\ Kind(S, p) = "silent" /\ Step(p)
 AReapAny(p)   == Is(p, {"poll", "pollx"}) /\ S.ph[p].m = "wb" /\ Kind(S, p) = "reapany" /\ Step(p)
 AWake(p)      == Is(p, {"slp", "zz", "win"}) /\ Step(p)
+APick(p)      == Is(p, {"pick"}) /\ Step(p)
 AWaitChk(p)   == Is(p, {"wchk"}) /\ Step(p)
 AExit(p)      == Is(p, {"exit"}) /\ Step(p)
 ACollect(p, c) == Collectable(S, p, c) /\ S' = DoCollect(S, p, c)
@@ -758,7 +781,7 @@ Next ==
   \/ \E p \in Pids :
        \/ ASimple(p) \/ AProbe(p) \/ ARead(p) \/ AWrite(p) \/ ABigWrite(p) \/ AKill(p) \/ APubGet(p) \/ AAck(p) \/ AUnblock(p) \/ AForkSub(p) \/ AForkCs(p) \/ AForkBg(p)
        \/ AForkStage(p) \/ AReadEof(p) \/ AEnable(p) \/ APollFg(p) \/ AReapFg(p) \/ APollAny(p)
-       \/ AReapAny(p) \/ AWake(p) \/ AWaitChk(p) \/ AExit(p)
+       \/ AReapAny(p) \/ AWake(p) \/ APick(p) \/ AWaitChk(p) \/ AExit(p)
   \/ \E p, c \in Pids : ACollect(p, c)
   \/ Done
 
